@@ -292,7 +292,19 @@ def run(repo: Repo, chk: Check) -> None:
     # ---- 4 every container type built during execution is built from anonymous argument types (provenance analysis, sa/annotflow.py) --------
     chk.set_clause('C17.4')
     from ..annotflow import findings as annot_findings
-    af = annot_findings(repo)
+    # which containers refuse an annotated argument type: decided by interpreting the REAL create_type of each container class on argument types
+    # that carry a field annotation (however the refusal is written: inline tests, a table of check functions ...)
+    restricted = set()
+    arity = {'list': 1, 'set': 1, 'option': 1, 'contract': 1, 'ticket': 1, 'map': 2, 'big_map': 2, 'lambda': 2, 'pair': 2, 'or': 2}
+    for prim, k in arity.items():
+        tc0 = t(prim, *[t('nat') for _ in range(k)])
+        args_annot = [t('nat', f=f'x{i}') for i in range(k)]
+        res = Interp(repo, RealTypeHooks(repo), max_depth=12).run_paths(lambda i, tc0=tc0, a=args_annot: i.call(i.getattr(tc0, 'create_type', None), [], {'args': list(a)}, None))
+        if res and all(p.outcome == 'raise' for p in res):
+            restricted.add(prim)
+        elif not (res and all(p.outcome == 'return' for p in res)):
+            raise AnalysisError(f'create_type of `{prim}` on annotated argument types: some paths refuse, some accept: idiom not modelled')
+    af = annot_findings(repo, restricted)
     chk.require(len(af['restricted']) >= 5, f'the prims whose argument types must be anonymous were not found in create_type: {af["restricted"]}')
     chk.minimum('create_type sites on restricted containers', af['sinks'], 15)
     chk.note('container_argument_provenance', {'restricted_prims': af['restricted'], 'sites': af['sinks'], 'anonymous': af['anon'], 'unknown': af['unknown'][:10]})
